@@ -30,6 +30,8 @@ mod build;
 
 mod cmdline;
 mod token_check;
+#[cfg(sccache_verif)]
+mod verif_sched;
 
 use cmdline::{AuthSubcommand, Command};
 
@@ -41,6 +43,11 @@ pub const INSECURE_DIST_SERVER_TOKEN: &str = "dangerously_insecure_server";
     target_os = "freebsd"
 ))]
 fn main() {
+    #[cfg(sccache_verif)]
+    if env::args().nth(1).as_deref() == Some("__verif_sched") {
+        return verif_sched::main();
+    }
+
     init_logging();
 
     let incr_env_strs = ["CARGO_BUILD_INCREMENTAL", "CARGO_INCREMENTAL"];
